@@ -161,7 +161,7 @@ def run(rep, props, replay=None):
                     except Exception as e:  # noqa: BLE001
                         rep.notes.append(f"PACE raised {type(e).__name__}: {e}"[:160])
         if i % 3 == 0:
-            two_d(rep, rng, runq, todo)
+            two_d(rep, rng, runq, todo, square=(i % 6 == 0))
         if i % 3 == 1:
             mfpca_part(rep, rng, runq, todo, i)
     res = runq.run()
@@ -234,8 +234,8 @@ def mfpca_part(rep, rng, runq, todo, i):
         todo.append((t, td if normalize else None, "MFPCA transform(X_train) = scores of the stored training data", key, opts))
 
 
-def two_d(rep, rng, runq, todo):
-    n, m1, m2, r = 6, 4, 5, 2
+def two_d(rep, rng, runq, todo, square=False):
+    n, m1, m2, r = 6, (5 if square else 4), 5, 2          # square: as many points in both dimensions, different grids
     x1, x2 = np.linspace(0, 1, m1), fd.grid(rng, m2, "nonuniform")
     b = np.array([np.outer(np.sin(np.pi * x1), np.cos(x2)), np.outer(x1, x2 ** 2)])
     coef = np.round(rng.normal(size=(n, r)) * 8) / 8
@@ -261,6 +261,18 @@ def two_d(rep, rng, runq, todo):
         opts = {"grid": "2-D", "method": "inner-product", "normalize": normalize, "n_components": r, "n": n, "m": m1 * m2, "rank": r}
         t = runq.add(f"score_cov_ok {C.qlit(1e-7 * sc * sc)} {n} {C.qlist(lam)} {C.qmat(Si)}")
         todo.append((t, None, "Gram-based scores uncorrelated with variance lambda (2-D)", key, opts))
+        # scores by numerical integration: the 2-D trapezoid integral of (centred, rescaled image) x eigenfunction,
+        # each dimension integrated over ITS OWN grid
+        with warnings.catch_warnings():
+            warnings.simplefilter("ignore")
+            Sn = np.asarray(f.transform(None, method="NumInt"), float)
+        Xc2 = (X - np.asarray(f.mean.values, float)[0]) / s
+        Ph2 = np.asarray(f.eigenfunctions.values, float)
+        ref = np.array([[np.trapz(np.trapz(Xc2[i] * Ph2[k], x2, axis=1), x1) for k in range(len(lam))] for i in range(n)])
+        if Sn.shape != ref.shape or np.max(np.abs(Sn - ref)) > 1e-8 * sc:
+            rep.violation(f"2-D NumInt scores differ from the integral of image x eigenfunction over the two grids by "
+                          f"{np.max(np.abs(Sn - ref)) if Sn.shape == ref.shape else 'shape'}",
+                          {"grid": "2-D", "normalize": normalize, "x1": C.hexf(x1), "x2": C.hexf(x2), "X": C.hexf(X)})
         R = np.asarray(f.inverse_transform(Si).values, float).reshape(n, -1)
         t = runq.add(f"mclose {C.qlit(1e-8 * sc * max(1.0, s))} "
                      f"(inverse_model {m1 * m2}%nat {C.qlist(mu)} {C.qlit(s)} {C.qmat(Phi)} {C.qmat(Si)}) {C.qmat(R)}")
